@@ -34,8 +34,17 @@ fi
 eb="$ROOT/work/C20-behaviour.json"; ef="$ROOT/work/C20-featmat.json"
 rm -f "$eb" "$ef"
 rb=2
+bx=()
+if [ "$tier" = quick ] && [ -z "$only" ] && [[ " $* " != *" --scale "* ]]; then bx+=(--scale "${VERIF_QUICK_SCALE:-4}"); fi
+if [ "$tier" = thorough ] && [ -z "$only" ] && [ -z "$VERIF_NO_FUZZ" ] && [ $built = 1 ]; then
+  seed="${VERIF_SEED:-1}"
+  for ((i=0; i<${#args[@]}; i++)); do [ "${args[$i]}" = "--seed" ] && seed="${args[$((i+1))]}"; done
+  rep="$ROOT/work/fuzz-c20.json"; rm -f "$rep"
+  if python3 "$TOOLS/fuzz_campaign.py" c20 --seed "$seed" --out "$rep"; then bx+=(--fuzz-report "$rep"); fi
+fi
 if [ $built = 1 ]; then
-  timeout --signal=KILL "${VERIF_TIMEOUT:-14400}" ./target/release/c20 "$@" --evidence "$eb"; rb=$(norm $?)
+  timeout --signal=KILL "${VERIF_TIMEOUT:-14400}" ./target/release/c20 "$@" "${bx[@]}" --evidence "$eb"; rb=$(norm $?)
+  rm -rf "$ROOT/work/fuzz-c20/corpus"
 fi
 fm_args=(--tier "$tier" --evidence "$ef")
 [ -n "$only" ] && fm_args+=(--only "$only")
